@@ -334,30 +334,93 @@ Proof.
 Qed.
 
 (* ---------- the ready batch of ZMQEventLoop._loop ---------- *)
-Lemma zprocess_ready_spec : forall beh ready z z' sig,
-  ZInv (zs z) -> zprocess_ready beh ready z = (z', sig) ->
+Definition zhandled (fd : Z) (tr : list event) : Prop :=
+  (exists id t, In (EWatchCall fd id t) (last_batch tr)) \/
+  (exists ok, In (ERmWatch fd ok) (last_batch tr)) \/
+  zwatched fd (before_select tr) = None.
+
+Lemma zhandled_app : forall fd n tr, (forall e, In e n -> p_nosel e = true) -> zhandled fd tr -> zhandled fd (n ++ tr).
+Proof.
+  intros fd n tr Hn H. destruct (nosel_app n tr Hn) as [_ [B C]]. unfold zhandled. rewrite B, C.
+  destruct H as [[id [t H]]|[[ok H]|H]].
+  - left. exists id, t. apply in_app_iff. now right.
+  - right; left. exists ok. apply in_app_iff. now right.
+  - right; right. exact H.
+Qed.
+
+Lemma zwatched_lost : forall b r fd, zwatched fd (b ++ r) = None -> zwatched fd r <> None -> exists ok, In (ERmWatch fd ok) b.
+Proof.
+  induction b as [|e b IH]; cbn; intros r fd H Hn; [contradiction|].
+  assert (G : (exists ok, In (ERmWatch fd ok) b) -> exists ok, e = ERmWatch fd ok \/ In (ERmWatch fd ok) b)
+    by (intros [ok X]; exists ok; now right).
+  destruct e; try (apply G; eapply IH; eauto; fail).
+  - destruct (fd0 =? fd); [discriminate|]. apply G; eapply IH; eauto.
+  - destruct (fd0 =? fd) eqn:E.
+    + apply Z.eqb_eq in E; subst. exists ok. now left.
+    + apply G; eapply IH; eauto.
+Qed.
+
+Lemma in_dedupe : forall l x, In x (dedupe l) <-> In x l.
+Proof.
+  induction l as [|a r IH]; intros x; cbn; [tauto|].
+  rewrite filter_In, IH. split.
+  - intros [H|[H _]]; auto.
+  - intros [H|H]; [now left|]. destruct (Z.eq_dec a x) as [->|Hn]; [now left|].
+    right. split; [exact H|]. apply negb_true_iff. apply Z.eqb_neq. congruence.
+Qed.
+
+Lemma zprocess_ready_spec : forall beh ready z z' sig to regs t rdy,
+  ZInv (zs z) -> last_select (rtrace (zs z)) = Some (to, regs, t, rdy) ->
+  (forall fd, In fd ready -> In fd rdy) ->
+  zprocess_ready beh ready z = (z', sig) ->
   ZInv (zs z') /\
   exists new, rtrace (zs z') = new ++ rtrace (zs z) /\ (forall e, In e new -> p_watch e = true) /\
-    (sig = ZCont -> did (zs z') = true \/ (new = [] /\ did (zs z') = did (zs z))).
+    (sig = SCont -> (did (zs z') = true \/ (new = [] /\ did (zs z') = did (zs z))) /\
+       forall fd, In fd ready -> zhandled fd (rtrace (zs z'))).
 Proof.
-  induction ready as [|fd r IH]; intros z z' sig HI E; cbn in E.
-  - inversion E; subst. split; [auto|]. exists []. split; [reflexivity|split; [intros e []|]]. intros _. now right.
+  induction ready as [|fd r IH]; intros z z' sig to regs t rdy HI LS Hr E; cbn in E.
+  - inversion E; subst. split; [auto|]. exists []. split; [reflexivity|split; [intros e []|]]. intros _.
+    split; [now right|intros fd []].
   - destruct (lookup fd (watch (zs z))) as [id|] eqn:Lk.
     + destruct (zrun_cb beh (EWatchCall fd id (now (zs z))) id z) as [z1 sg] eqn:C.
       assert (HI0 : ZInv (log (EWatchCall fd id (now (zs z))) (zs z))).
-      { apply zInv_log; auto. cbn. destruct HI as [_ [K L] _ _]. now rewrite <- L. }
+      { apply zInv_log; auto. cbn. split.
+        - destruct HI as [_ [K L] _ _]. now rewrite <- L.
+        - unfold zready_in. rewrite LS. apply Hr. now left. }
       destruct (zstep_run_cb' p_watch _ _ _ _ _ _ (eq_refl : p_watch (EWatchCall fd id (now (zs z))) = true) p_act_watch HI0 C)
         as [HI1 [n1 [E1 [P1 [In1 D1]]]]].
+      assert (N1 : forall e, In e n1 -> p_nosel e = true) by (intros; apply p_watch_nosel; auto).
+      destruct (nosel_app n1 (rtrace (zs z)) N1) as [A1 [B1 C1]].
       destruct sg.
-      * destruct (IH (with_zs (set_did true (zs z1)) z1) z' sig) as [HI' [n2 [E2 [P2 C2]]]]; auto.
+      * destruct (IH (with_zs (set_did true (zs z1)) z1) z' sig to regs t rdy) as [HI' [n2 [E2 [P2 C2]]]]; auto.
         { cbn. now apply zInv_set_did. }
+        { cbn. rewrite E1, A1. exact LS. }
+        { intros; apply Hr; now right. }
         cbn in E2. split; [auto|]. exists (n2 ++ n1). split; [|split].
         -- rewrite E2, E1. now rewrite app_assoc.
         -- intros e X. apply in_app_iff in X. destruct X; auto.
-        -- intros Hs. left. destruct (C2 Hs) as [D2|[_ D2]]; [exact D2|]. rewrite D2. reflexivity.
+        -- intros Hs. destruct (C2 Hs) as [D2 H2]. split.
+           ++ left. destruct D2 as [D2|[_ D2]]; [exact D2|]. rewrite D2. reflexivity.
+           ++ intros fd' [X|X]; [|auto]. subst fd'. rewrite E2.
+              apply zhandled_app; [intros; apply p_watch_nosel; auto|].
+              left. rewrite E1, C1. exists id, (now (zs z)). apply in_app_iff. now left.
       * inversion E; subst. split; [auto|]. exists n1. split; [auto|split; [auto|discriminate]].
       * inversion E; subst. split; [auto|]. exists n1. split; [auto|split; [auto|discriminate]].
-    + inversion E; subst. split; [auto|]. exists []. split; [reflexivity|split; [intros e []|discriminate]].
+    + destruct (IH z z' sig to regs t rdy) as [HI' [n2 [E2 [P2 C2]]]]; auto.
+      { intros; apply Hr; now right. }
+      split; [auto|]. exists n2. split; [auto|split; [auto|]].
+      intros Hs. destruct (C2 Hs) as [D2 H2]. split; [exact D2|].
+      intros fd' [X|X]; [|auto]. subst fd'. rewrite E2.
+      apply zhandled_app; [intros; apply p_watch_nosel; auto|].
+      (* no callback now: either there was none at the poll, or it was removed in this batch *)
+      destruct HI as [_ [K L] _ _]. rewrite L in Lk.
+      pose proof (split_at_select _ _ _ _ _ LS) as Sp.
+      destruct (zwatched fd (before_select (rtrace (zs z)))) eqn:W0; [|right; right; exact W0].
+      right; left. rewrite Sp in Lk.
+      change (last_batch (rtrace (zs z)) ++ ESelect to regs t rdy :: before_select (rtrace (zs z)))
+        with (last_batch (rtrace (zs z)) ++ [ESelect to regs t rdy] ++ before_select (rtrace (zs z))) in Lk.
+      rewrite app_assoc in Lk. apply zwatched_lost in Lk; [|rewrite W0; discriminate].
+      destruct Lk as [ok M]. exists ok. apply in_app_iff in M. destruct M as [M|[M|[]]]; [exact M|discriminate].
 Qed.
 
 (* ---------- popping the earliest alarm ---------- *)
@@ -408,11 +471,12 @@ Proof.
   - intros H; inversion H; subst. right; right. exists a, rest. repeat split; auto.
 Qed.
 
-Definition ZLoopInv (s : state) : Prop := ZInv s /\ (did s = false -> idle_done (rtrace s)).
+Definition ZLoopInv (s : state) : Prop :=
+  ZInv s /\ zbatch_done (rtrace s) /\ (did s = false -> idle_done (rtrace s)).
 
 Lemma zsel_ok_plan : forall z to tm, ZLoopInv (zs z) -> zplan z = Some (to, tm) -> zsel_ok to (now (zs z)) (rtrace (zs z)).
 Proof.
-  intros z to tm [[[S T P F] W I H] ID] Pl. unfold zsel_ok. split.
+  intros z to tm [[[S T P F] W I H] [BD ID]] Pl. unfold zsel_ok. split; [|split; [|exact BD]].
   - destruct (zplan_cases _ _ _ Pl) as [[-> [_ [Ea _]]]|[[-> _]|[a [rest [Ea [-> [_ _]]]]]]].
     + intros k d i X. apply P in X. rewrite Ea in X. destruct X.
     + split; lia.
@@ -433,16 +497,16 @@ Lemma zdo_select_spec : forall to st z z1 r, zdo_select to st z = (z1, r) ->
     match r with
     | None => to = None /\ rdy = []
     | Some rd => (rdy = [] -> rd = [] /\ exists t0, to = Some t0 /\ v = now (zs z) + t0 + Z.max 0 (s_dt st)) /\
-                 (rd = [] -> rdy = [])
+                 (rd = [] -> rdy = []) /\ (forall fd, In fd rd <-> In fd rdy)
     end.
 Proof.
   intros to st z z1 r E. unfold zdo_select in E.
   set (rdy := filter (fun fd => existsb (fun r0 => r0 =? fd) (map snd (psock z))) (s_fds st)) in *.
-  exists rdy. destruct rdy as [|p ps] eqn:Ep; destruct to as [t0|]; inversion E; subst; clear E; cbn.
-  - eexists. split; [reflexivity|split; [reflexivity|]]. split; [intros _; split; [reflexivity|eauto]|auto].
+  exists rdy. destruct rdy as [|p ps] eqn:Ep; destruct to as [t0|]; inversion E; subst; clear E; cbn [zs psock].
+  - eexists. split; [reflexivity|split; [reflexivity|]]. split; [intros _; split; [reflexivity|eauto]|split; [auto|tauto]].
   - exists (now (zs z)). split; [reflexivity|split; [reflexivity|auto]].
-  - eexists. split; [reflexivity|split; [reflexivity|]]. split; [discriminate|discriminate].
-  - eexists. split; [reflexivity|split; [reflexivity|]]. split; [discriminate|discriminate].
+  - eexists. split; [reflexivity|split; [reflexivity|]]. split; [discriminate|split; [discriminate|intros fd; exact (in_dedupe (p :: ps) fd)]].
+  - eexists. split; [reflexivity|split; [reflexivity|]]. split; [discriminate|split; [discriminate|intros fd; exact (in_dedupe (p :: ps) fd)]].
 Qed.
 
 Lemma zInv_select : forall z to tm rdy v, ZLoopInv (zs z) -> zplan z = Some (to, tm) ->
@@ -457,35 +521,43 @@ Lemma ziteration_spec : forall beh z st to tm z1 ready z2 sig,
   ZLoopInv (zs z) -> zplan z = Some (to, tm) ->
   zdo_select to st z = (z1, Some ready) ->
   zafter_select beh tm ready z1 = (z2, sig) ->
-  ZInv (zs z2) /\ (sig = ZCont -> ZLoopInv (zs z2)).
+  ZInv (zs z2) /\ (sig = SCont -> ZLoopInv (zs z2)).
 Proof.
   intros beh z st to tm z1 ready z2 sig L Pl Ds As.
-  destruct (zdo_select_spec _ _ _ _ _ Ds) as [rdy [v [Es1 [Ps1 [Hv Hr]]]]].
+  destruct (zdo_select_spec _ _ _ _ _ Ds) as [rdy [v [Es1 [Ps1 [Hv [Hr Hin]]]]]].
   pose proof (zInv_select z to tm rdy v L Pl) as HI1. rewrite <- Es1 in HI1.
   assert (Tr1 : rtrace (zs z1) = ESelect to (map snd (psock z)) (now (zs z)) rdy :: rtrace (zs z)) by (rewrite Es1; reflexivity).
+  assert (Ls1 : last_select (rtrace (zs z1)) = Some (to, map snd (psock z), now (zs z), rdy)) by (rewrite Tr1; reflexivity).
   assert (Dd1 : did (zs z1) = did (zs z)) by (rewrite Es1; reflexivity).
   unfold zafter_select in As. destruct ready as [|p ps].
   - (* nothing readable *)
     assert (Er : rdy = []) by (now apply Hr). destruct (Hv Er) as [_ [t0 [-> Ev]]].
+    assert (Hfin : forall s', (exists new, rtrace s' = new ++ rtrace (zs z1) /\ forall e, In e new -> p_nosel e = true) ->
+                     zbatch_done (rtrace s')).
+    { intros s' [new [En Hn]]. unfold zbatch_done. rewrite En. destruct (nosel_app new (rtrace (zs z1)) Hn) as [A _].
+      rewrite A, Ls1, Er. intros fd []. }
     destruct tm.
     + (* TmNone *)
-      cbn in As. inversion As; subst z2 sig. split; [exact HI1|]. intros _. split; [exact HI1|].
-      rewrite Tr1, Dd1. intros D. apply idle_done_cons; [reflexivity|]. now apply L.
+      cbn in As. inversion As; subst z2 sig. split; [exact HI1|]. intros _. split; [exact HI1|split].
+      * apply Hfin. exists []. split; [reflexivity|intros e []].
+      * rewrite Tr1, Dd1. intros D. apply idle_done_cons; [reflexivity|]. now apply L.
     + (* TmIdle *)
       destruct (zidle_round beh (idles (zs z1)) z1) as [z' sg] eqn:Ir.
       destruct (zidle_round_spec beh (idles (zs z1)) z1 z' sg HI1) as [HI' [Dd [new [En [Pn Cn]]]]]; auto.
       { intros h id X. destruct HI1 as [_ _ [K I F] _]. now apply I. }
       destruct sg.
       * cbn in As. inversion As; subst z2 sig. cbn. split; [now apply zInv_set_did|]. intros _.
-        split; [now apply zInv_set_did|]. intros _. cbn. rewrite En, Tr1.
-        destruct (zplan_cases _ _ _ Pl) as [[_ [X _]]|[[X _]|[a [rest [_ [_ [X _]]]]]]]; try discriminate.
-        inversion X; subst t0. subst rdy.
-        exists new, (map snd (psock z)), (now (zs z)), (rtrace (zs z)). split; [reflexivity|split].
-        -- intros e X'. apply p_idle_not_aw. auto.
-        -- intros h id Hs Hrm. apply (Cn eq_refl).
-           ++ destruct HI1 as [_ _ [K I F] _]. apply I. rewrite Tr1. split; [now right|].
-              intros Y. apply Hrm. unfold iremoved in *. apply in_app_iff. right. exact Y.
-           ++ rewrite En, Tr1. exact Hrm.
+        split; [now apply zInv_set_did|split].
+        -- apply (Hfin (set_did false (zs z'))). exists new. split; [exact En|]. intros; apply p_idle_nosel; auto.
+        -- intros _. cbn. rewrite En, Tr1.
+           destruct (zplan_cases _ _ _ Pl) as [[_ [X _]]|[[X _]|[a [rest [_ [_ [X _]]]]]]]; try discriminate.
+           inversion X; subst t0. subst rdy.
+           exists new, (map snd (psock z)), (now (zs z)), (rtrace (zs z)). split; [reflexivity|split].
+           ++ intros e X'. apply p_idle_not_aw. auto.
+           ++ intros h id Hs Hrm. apply (Cn eq_refl).
+              ** destruct HI1 as [_ _ [K I F] _]. apply I. rewrite Tr1. split; [now right|].
+                 intros Y. apply Hrm. unfold iremoved in *. apply in_app_iff. right. exact Y.
+              ** rewrite En, Tr1. exact Hrm.
       * cbn in As. inversion As; subst. split; [auto|discriminate].
       * cbn in As. inversion As; subst. split; [auto|discriminate].
     + (* TmAlarm *)
@@ -499,20 +571,31 @@ Proof.
           as [z' sg] eqn:C.
         assert (HIc : ZInv (log (EAlarmCall (a_tie a) (a_cb a) (now (zs z1))) (set_alarms rest (zs z1)))).
         { apply zInv_alarm_call; auto. }
-        destruct (zstep_run_cb _ _ _ (with_zs (set_alarms rest (zs z1)) z1) _ _ HIc C) as [HI' _].
+        destruct (zstep_run_cb _ _ _ (with_zs (set_alarms rest (zs z1)) z1) _ _ HIc C) as [HI' [m [Em [Hm _]]]].
+        cbn in Em.
         destruct sg.
         -- cbn in As. inversion As; subst z2 sig. cbn. split; [now apply zInv_set_did|]. intros _.
-           split; [now apply zInv_set_did|discriminate].
+           split; [now apply zInv_set_did|split; [|discriminate]].
+           apply (Hfin (set_did true (zs z'))).
+           exists (m ++ [EAlarmCall (a_tie a) (a_cb a) (now (zs z1))]). split.
+           ++ cbn. rewrite Em. now rewrite <- app_assoc.
+           ++ intros e X. apply in_app_iff in X. destruct X as [X|[<-|[]]]; [apply p_act_nosel; auto|reflexivity].
         -- cbn in As. inversion As; subst. split; [auto|discriminate].
         -- cbn in As. inversion As; subst. split; [auto|discriminate].
-      * cbn in As. inversion As; subst z2 sig. split; [exact HI1|]. intros _. split; [exact HI1|].
-        rewrite Tr1, Dd1. intros D. apply idle_done_cons; [reflexivity|]. now apply L.
+      * cbn in As. inversion As; subst z2 sig. split; [exact HI1|]. intros _. split; [exact HI1|split].
+        -- apply Hfin. exists []. split; [reflexivity|intros e []].
+        -- rewrite Tr1, Dd1. intros D. apply idle_done_cons; [reflexivity|]. now apply L.
   - (* a ready batch *)
     cbn in As.
-    destruct (zprocess_ready_spec beh (p :: ps) z1 z2 sig HI1 As) as [HI2 [new [En [Pn Cn]]]].
-    split; [exact HI2|]. intros Hs. split; [exact HI2|].
-    intros D. destruct (Cn Hs) as [Dd|[Dn Dd]]; [congruence|]. subst new. cbn in En. rewrite En, Tr1.
-    apply idle_done_cons; [reflexivity|]. apply L. congruence.
+    destruct (zprocess_ready_spec beh (p :: ps) z1 z2 sig _ _ _ _ HI1 Ls1) as [HI2 [new [En [Pn Cn]]]]; auto.
+    { intros fd X. now apply Hin. }
+    split; [exact HI2|]. intros Hs. destruct (Cn Hs) as [Dd Hh]. split; [exact HI2|split].
+    + unfold zbatch_done.
+      assert (A : last_select (rtrace (zs z2)) = Some (to, map snd (psock z), now (zs z), rdy)).
+      { rewrite En. destruct (nosel_app new (rtrace (zs z1))) as [A _]; [intros; apply p_watch_nosel; auto|]. now rewrite A. }
+      rewrite A. intros fd X. apply Hh. now apply Hin.
+    + intros D. destruct Dd as [Dd|[Dn Dd]]; [congruence|]. subst new. cbn in En. rewrite En, Tr1.
+      apply idle_done_cons; [reflexivity|]. apply L. congruence.
 Qed.
 
 (* ---------- ZMQEventLoop.run() : all iterations, any environment ---------- *)
@@ -527,7 +610,7 @@ Proof.
     destruct (zdo_select to st z) as [z1 [ready|]] eqn:Ds.
     + destruct (zafter_select beh tm ready z1) as [z2 sg] eqn:As.
       destruct (ziteration_spec _ _ _ _ _ _ _ _ _ L Pl Ds As) as [HI HL].
-      destruct sg; [exact (IH z2 z' o (HL eq_refl) E)|inversion E; subst; auto|inversion E; subst; auto|inversion E; subst; auto].
+      destruct sg; [exact (IH z2 z' o (HL eq_refl) E)|inversion E; subst; auto|inversion E; subst; auto].
     + inversion E; subst. destruct (zdo_select_spec _ _ _ _ _ Ds) as [rdy [v [Es1 _]]]. rewrite Es1.
       eapply zInv_select; eauto.
 Qed.
@@ -548,21 +631,17 @@ Qed.
 Theorem zscenario_hist_ok : forall setup beh env, hist_ok zev_ok (rtrace (zs (fst (zscenario setup beh env)))).
 Proof.
   intros. unfold zscenario. destruct (zrun_actions setup zinit) as [z0 sg] eqn:E. cbn.
-  destruct (zstep_run_actions _ _ _ _ zInv_init E) as [HI [_ D]].
+  destruct (zstep_run_actions _ _ _ _ zInv_init E) as [HI [[n [En Hn]] D]].
   destruct (zrun_loop beh env z0) as [z' o] eqn:R. cbn.
   assert (L : ZLoopInv (zs z0)).
-  { split; [exact HI|]. intros X. rewrite D in X. cbn in X. discriminate. }
+  { split; [exact HI|split].
+    - unfold zbatch_done. rewrite En. cbn. rewrite app_nil_r.
+      destruct (nosel_app n []) as [A _]; [intros; apply p_act_nosel; auto|]. rewrite app_nil_r in A. now rewrite A.
+    - intros X. rewrite D in X. cbn in X. discriminate. }
   apply (zrun_loop_inv _ _ _ _ _ L R).
 Qed.
 
 (* ---------- exceptions ---------- *)
-Definition zexc_post (z : zstate) (sig : zsig) : Prop :=
-  match sig with
-  | ZCont | ZKey => no_raise (rtrace (zs z))
-  | ZExit => exists r, rtrace (zs z) = ERaise true :: r /\ no_raise r
-  | ZOther => exists r, rtrace (zs z) = ERaise false :: r /\ no_raise r
-  end.
-
 Lemma zexc_exec_action : forall a z z' sig, no_raise (rtrace (zs z)) -> zexec_action a z = (z', sig) -> exc_post (zs z') sig.
 Proof.
   intros a z z' sig H E. unfold zexec_action in E.
@@ -598,20 +677,17 @@ Proof.
     destruct sg; [eapply IH; eauto|inversion E; subst; exact X|inversion E; subst; exact X].
 Qed.
 
-Lemma zexc_of : forall z sg, exc_post (zs z) sg -> zexc_post z (zsig_of sg).
-Proof. intros z sg H. destruct sg; exact H. Qed.
-
-Lemma zexc_process_ready : forall beh ready z z' sig, no_raise (rtrace (zs z)) -> zprocess_ready beh ready z = (z', sig) -> zexc_post z' sig.
+Lemma zexc_process_ready : forall beh ready z z' sig, no_raise (rtrace (zs z)) -> zprocess_ready beh ready z = (z', sig) -> exc_post (zs z') sig.
 Proof.
   induction ready as [|fd r IH]; cbn; intros z z' sig H E.
   - inversion E; subst. exact H.
-  - destruct (lookup fd (watch (zs z))) as [id|]; [|inversion E; subst; exact H].
+  - destruct (lookup fd (watch (zs z))) as [id|]; [|eauto].
     destruct (zrun_cb beh (EWatchCall fd id (now (zs z))) id z) as [z1 sg] eqn:C.
     assert (X : exc_post (zs z1) sg) by (eapply zexc_run_cb; [| |exact C]; [intros b; discriminate|exact H]).
     destruct sg; [eapply IH; [|exact E]; exact X|inversion E; subst; exact X|inversion E; subst; exact X].
 Qed.
 
-Lemma zexc_after_select : forall beh tm ready z z' sig, no_raise (rtrace (zs z)) -> zafter_select beh tm ready z = (z', sig) -> zexc_post z' sig.
+Lemma zexc_after_select : forall beh tm ready z z' sig, no_raise (rtrace (zs z)) -> zafter_select beh tm ready z = (z', sig) -> exc_post (zs z') sig.
 Proof.
   intros beh tm ready z z' sig H E. unfold zafter_select in E.
   destruct ready as [|p ps].
@@ -629,7 +705,16 @@ Proof.
   - eapply zexc_process_ready; eauto.
 Qed.
 
-Lemma zexc_run_loop : forall beh env z z' o, no_raise (rtrace (zs z)) -> zrun_loop beh env z = (z', o) -> exc_outcome (zs z') o.
+(* run() ends by an exception only when a callback raised: KeyError never leaves it *)
+Definition zexc_outcome (s : state) (o : outcome) : Prop :=
+  match o with
+  | OReturned => exists r, rtrace s = ERaise true :: r /\ no_raise r
+  | ORaised => exists r, rtrace s = ERaise false :: r /\ no_raise r
+  | OKeyError => False
+  | _ => no_raise (rtrace s)
+  end.
+
+Lemma zexc_run_loop : forall beh env z z' o, no_raise (rtrace (zs z)) -> zrun_loop beh env z = (z', o) -> zexc_outcome (zs z') o.
 Proof.
   induction env as [|st env IH]; intros z z' o H E; cbn in E.
   - destruct (zplan z) as [[to tm]|]; inversion E; subst; cbn; [|exact H].
@@ -641,7 +726,7 @@ Proof.
     destruct r as [ready|]; [|inversion E; subst; exact H1].
     destruct (zafter_select beh tm ready z1) as [z2 sg] eqn:As.
     pose proof (zexc_after_select _ _ _ _ _ _ H1 As) as X.
-    destruct sg; [eapply IH; eauto|inversion E; subst; exact X|inversion E; subst; exact X|inversion E; subst; exact X].
+    destruct sg; [eapply IH; eauto|inversion E; subst; exact X|inversion E; subst; exact X].
 Qed.
 
 Lemma zsetup_no_raise : forall setup z, no_raise (rtrace (zs z)) -> (forall a, In a setup -> action_raises a = false) ->
@@ -657,7 +742,7 @@ Qed.
 
 Theorem zscenario_exceptions : forall setup beh env,
   (forall a, In a setup -> action_raises a = false) ->
-  exc_outcome (zs (fst (zscenario setup beh env))) (snd (zscenario setup beh env)).
+  zexc_outcome (zs (fst (zscenario setup beh env))) (snd (zscenario setup beh env)).
 Proof.
   intros setup beh env Hs. unfold zscenario.
   destruct (zsetup_no_raise setup zinit) as [z0 [E H0]]; [intros b []|exact Hs|]. rewrite E. cbn.
@@ -713,3 +798,47 @@ Proof.
     destruct Hs as [Hs _]. destruct (Hs eq_refl) as [_ Q]. apply Q. unfold iremoved. apply in_app_iff. right. now left.
 Qed.
 
+
+(* after remove_watch_file(fd) (whatever it returned) no callback of fd runs until fd is registered again *)
+Lemma zwatched_none_until_set : forall newer fd ok older,
+  (forall id, ~ In (EWatchSet fd id) newer) -> zwatched fd (newer ++ ERmWatch fd ok :: older) = None.
+Proof.
+  induction newer as [|e r IH]; intros fd ok older Hn; cbn.
+  - now rewrite Z.eqb_refl.
+  - assert (Hr : forall id, ~ In (EWatchSet fd id) r) by (intros id X; apply (Hn id); now right).
+    destruct e; try (apply IH; exact Hr).
+    + destruct (fd0 =? fd) eqn:E; [|apply IH; exact Hr]. apply Z.eqb_eq in E; subst. exfalso. apply (Hn id). now left.
+    + destruct (fd0 =? fd); [reflexivity|apply IH; exact Hr].
+Qed.
+
+Lemma zwatch_removed_facts : forall tr newer fd ok older, hist_ok zev_ok tr -> tr = newer ++ ERmWatch fd ok :: older ->
+  forall n2 id t n1, newer = n2 ++ EWatchCall fd id t :: n1 -> exists id', In (EWatchSet fd id') n1.
+Proof.
+  intros tr newer fd ok older H E n2 id t n1 En. pose proof (proj1 (hist_ok_split _ _) H) as Hs.
+  subst newer. rewrite <- app_assoc in E. cbn in E. specialize (Hs _ _ _ E). cbn in Hs. destruct Hs as [Hw _].
+  assert (D : (exists id', In (EWatchSet fd id') n1) \/ (forall id', ~ In (EWatchSet fd id') n1)).
+  { clear. induction n1 as [|e r IH]; [right; intros id' []|].
+    destruct IH as [[id' X]|X]; [left; exists id'; now right|].
+    destruct e; try (right; intros id' [Y|Y]; [discriminate|eapply X; eauto]).
+    destruct (Z.eq_dec fd0 fd) as [->|Hn]; [left; exists id; now left|].
+    right; intros id' [Y|Y]; [inversion Y; congruence|eapply X; eauto]. }
+  destruct D as [D|D]; [exact D|]. exfalso. rewrite zwatched_none_until_set in Hw by exact D. discriminate.
+Qed.
+
+Lemma zready_in_explicit : forall fd tr, zready_in fd tr ->
+  exists batch to regs t rdy rest, tr = batch ++ ESelect to regs t rdy :: rest /\
+    (forall e, In e batch -> is_select e = false) /\ In fd rdy.
+Proof.
+  intros fd tr H. unfold zready_in in H. destruct (last_select tr) as [[[[to regs] t] rdy]|] eqn:L; [|destruct H].
+  exists (last_batch tr), to, regs, t, rdy, (before_select tr). split; [now apply split_at_select|].
+  split; [apply last_batch_nosel|exact H].
+Qed.
+
+Lemma zbatch_done_explicit : forall tr batch to regs t rdy rest, zbatch_done tr ->
+  tr = batch ++ ESelect to regs t rdy :: rest -> (forall e, In e batch -> is_select e = false) ->
+  forall fd, In fd rdy ->
+    (exists id t', In (EWatchCall fd id t') batch) \/ (exists ok, In (ERmWatch fd ok) batch) \/ zwatched fd rest = None.
+Proof.
+  intros tr batch to regs t rdy rest H E Hb. unfold zbatch_done in H. subst tr.
+  destruct (last_parts batch to regs t rdy rest Hb) as [A [B C]]. rewrite A, B, C in H. exact H.
+Qed.
